@@ -476,6 +476,7 @@ def run(ctx):
     from . import c10 as _c10
 
     _c10.stored_frame_rule(ctx)
+    _c10.fibre_derivative_rule(ctx)
     from ..shared import group_loop_leak_rule as _group_loop_leak_rule
 
     _group_loop_leak_rule(ctx, "R2.9", scope=lambda f, _s=("EasyFEA.Simulations",): f.module.name.startswith(_s), min_instances=8)
